@@ -59,6 +59,17 @@ CLAIMED = {
              "unsigned bit pattern). F1 (usize mask) fixed; F2 (i128 minimum lint) known.",
         technique="Lean 4 proof (numeral round trips, range/materialisation arithmetic by omega) + end-to-end correspondence",
         design="§4 C09"),
+    "C10": dict(
+        text="Lean layout model of what `|:T|` yields, with theorems for all types/lists: |:[N]T| = N * |:T|, every size is "
+             "a multiple of its alignment (array stride = element size), structure size >= sum of members, is padded to the "
+             "structure's alignment and by less than one alignment unit, and the typer's own word-size algorithm equals the "
+             "generated layout for every list of primitive word members (`word_layout_agree`, `word_fits`). const-vs-var "
+             "evaluation and |x| through every passing mode are checked end to end against the single Lean evaluator. "
+             "Partial: LLVM's constant folder is not modelled; its agreement with run-time evaluation is correspondence only.",
+        note="Trusted: Lean kernel, the layout model's tie to LLVM's data layout (checked by printing |:T| for random structures), "
+             "the interpreter (C01), lli.",
+        technique="Lean 4 proof (layout arithmetic, two-algorithm agreement) + end-to-end correspondence",
+        design="§4 C10"),
     "C14": dict(
         text="Lean reference lexer (alpha's lexer arm by arm) with theorems: every fixed spelling (punctuation, keywords, type "
              "names: complete table) and every integer literal spelling (decimal / 0x / 0b, any `_` separator placement, any "
